@@ -173,7 +173,8 @@ def forbidden_scan(mods):
 
 def audit_axioms(pid, mods, thms):
     """#print axioms for every property theorem; returns dict name -> list of axioms (None if unknown)"""
-    path = os.path.join(LEAN, "Audit_%s.lean" % pid)
+    # one file per process: two concurrent runs of the same property (quick and thorough, or two trees) used to share - and delete - one file
+    path = os.path.join(LEAN, "Audit_%s_%d.lean" % (pid, os.getpid()))
     src = "".join("import %s\n" % m for m in mods) + "".join("#print axioms %s\n" % t for t in thms)
     with open(path, "w") as f:
         f.write(src)
@@ -240,6 +241,25 @@ def repo_headers_hash():
     return h.hexdigest()
 
 
+_NAMES_DIR = {}
+
+
+def names_header_dir():
+    """directory holding the generated `cocls_names.h` (VN_… macros) of the tree under test; computed once per process"""
+    key = repo_headers_hash()
+    if key not in _NAMES_DIR:
+        if VERIF not in sys.path:
+            sys.path.insert(0, VERIF)
+        from extract import names
+        os.makedirs(BUILD, exist_ok=True)
+        try:
+            _NAMES_DIR[key] = names.harness_header(BUILD, key)
+        except Exception as e:      # the tree does not even parse: every macro stands for the name of the validated tree
+            log("names: no mapping for this tree (%r) - VN_ macros expand to the names of the validated tree" % (e,))
+            _NAMES_DIR[key] = names.harness_header(BUILD, None, identity=True)
+    return _NAMES_DIR[key]
+
+
 def build_harness(name, sources, extra_flags=(), sanitize=True, cxx=None, libs=()):
     """compile harness/<sources> against /repo/src; cached by hash of headers+sources+flags"""
     cxx = cxx or CXX
@@ -257,6 +277,11 @@ def build_harness(name, sources, extra_flags=(), sanitize=True, cxx=None, libs=(
         for fn in sorted(os.listdir(shim)):
             h.update(open(os.path.join(shim, fn), "rb").read())
     flags = list(BASE_FLAGS) + (SAN_FLAGS if sanitize else []) + list(extra_flags)
+    # private / protected names of the library are not interface: the harnesses spell them VN_<class>_<name>; the generated header maps each
+    # macro to the name that member has in THIS tree (extract/names.py).  Its directory is named after the hash of its content, so the
+    # content is part of the cache key below.
+    vn_dir = names_header_dir()
+    flags += ["-I" + vn_dir, "-include", os.path.join(vn_dir, "cocls_names.h")]
     h.update(" ".join([cxx] + flags + list(libs)).encode())
     exe = os.path.join(BUILD, "%s-%s" % (name, h.hexdigest()[:16]))
     if os.path.exists(exe):
